@@ -244,31 +244,80 @@ func main() {
 			cfg.Overlay[dst] = b
 		}
 	}
-	pkgs, err := packages.Load(cfg, "./...")
-	if err != nil {
-		fatal("load: %v", err)
-	}
-	if len(pkgs) == 0 {
-		fatal("no packages")
-	}
 	var tab table
-	sort.Slice(pkgs, func(i, j int) bool { return pkgs[i].PkgPath < pkgs[j].PkgPath })
-	for _, p := range pkgs {
-		if strings.HasPrefix(p.PkgPath, modPath+"/internal/next") {
-			continue
+	// The registrations are the same on every OS except for files behind
+	// build constraints (dhcpd/http_windows.go): analyse the Linux build and
+	// the Windows build and merge by source position.
+	for _, goos := range []string{"linux", "windows"} {
+		c := *cfg
+		c.Env = append(append([]string{}, cfg.Env...), "GOOS="+goos, "GOARCH=amd64", "CGO_ENABLED=0")
+		pkgs, err := packages.Load(&c, "./...")
+		if err != nil {
+			fatal("load (%s): %v", goos, err)
 		}
-		if len(p.Errors) > 0 {
-			fatal("package %s does not type-check: %v", p.PkgPath, p.Errors[0])
+		if len(pkgs) == 0 {
+			fatal("no packages (%s)", goos)
 		}
-		fset = p.Fset
-		for _, f := range p.Syntax {
-			scanFile(p, f, &tab)
+		sort.Slice(pkgs, func(i, j int) bool { return pkgs[i].PkgPath < pkgs[j].PkgPath })
+		for _, p := range pkgs {
+			if strings.HasPrefix(p.PkgPath, modPath+"/internal/next") {
+				continue
+			}
+			if len(p.Errors) > 0 {
+				fatal("package %s does not type-check (GOOS=%s): %v", p.PkgPath, goos, p.Errors[0])
+			}
+			fset = p.Fset
+			for _, f := range p.Syntax {
+				scanFile(p, f, &tab)
+			}
 		}
 	}
+	dedupe(&tab)
 	if tab.RegEmpty == nil && tab.RegMethod == nil {
 		fatal("home.httpRegister not found: the registration idiom has changed")
 	}
 	writeOutputs(verif, &tab)
+}
+
+// dedupe removes the entries seen in both builds.
+func dedupe(tab *table) {
+	seen := map[string]bool{}
+	var rs []route
+	for _, r := range tab.Routes {
+		k := "r" + r.Pos + "|" + r.Pattern
+		if !seen[k] {
+			seen[k] = true
+			rs = append(rs, r)
+		}
+	}
+	tab.Routes = rs
+	var bs []binding
+	for _, b := range tab.Bindings {
+		k := "b" + b.Pos + "|" + b.Text
+		if !seen[k] {
+			seen[k] = true
+			bs = append(bs, b)
+		}
+	}
+	tab.Bindings = bs
+	var ms []muxSite
+	for _, m := range tab.Muxes {
+		k := "m" + m.Pos
+		if !seen[k] {
+			seen[k] = true
+			ms = append(ms, m)
+		}
+	}
+	tab.Muxes = ms
+	var ss []server
+	for _, sv := range tab.Servers {
+		k := "s" + sv.Pos
+		if !seen[k] {
+			seen[k] = true
+			ss = append(ss, sv)
+		}
+	}
+	tab.Servers = ss
 }
 
 func fatal(format string, a ...any) {
